@@ -137,6 +137,53 @@ def run(ctx):
             if len(ctx.violations) < 4:
                 ctx.violation("soup-%d" % len(ctx.violations), "validate-robustness", ["v\t-\t-\t" + hexs(s)], detail="validate() crashed (%s) on: %s" % (a, s[:600]))
     ctx.add_suite("validate-robustness", **st4)
+    # a broken correspondence: search for a failing input first - documents the code accepts although the model finds a fatal issue
+    # are run under many event histories of their own alphabet, on both engines
+    searched = 0
+    for d, a, b in broken[:12]:
+        if not a.startswith("F=") or fields(a)["F"] != "-" or b == "-" or any(p.endswith("-unsound-search.txt") for p, _ in ctx.violations): continue
+        import itertools
+        hist = [list(h) for k in range(1, 5) for h in itertools.product(["e", "f", "g"], repeat=k)] + \
+               [[rng.choice(["e", "f", "g"]) for _ in range(rng.randint(5, 7))] for _ in range(40)]
+        for eng in ("large", "fast"):
+            cs = [(d, h) for h in hist]
+            T, _ = E.run_batches(ctx, [E.case_line(eng, d, h) for h in hist], want_driver=False)
+            leg = c02.legality(ctx, cs, T)
+            searched += len(cs)
+            for h, t, lg in zip(hist, T, leg):
+                toks = t.split(" ")
+                pr = c02.problems(toks, lg)
+                if any(x.startswith(("CRASH", "EXC", "EXIT")) for x in toks): pr = "interpreter failed: " + [x for x in toks if x.startswith(("CRASH", "EXC", "EXIT"))][0]
+                if pr is not None and "hist-shared" not in c01.classify(d):
+                    ctx.violation("unsound-search", "validate-soundness", [E.case_line(eng, d, h)],
+                                  detail="validation reports no fatal issue (the model reports %s), and engine %s then: %s\nchart: %s\nevents: %s" % (b, eng, pr, charts.sexpr(d)[:600], h))
+                    break
+            if any(p.endswith("-unsound-search.txt") for p, _ in ctx.violations): break
+    # ... and more documents with the corruptions of the disagreeing ones are generated: the accepted ones are run
+    bk = sorted(set(x for d0, a, b in broken for dd, kk in zip(docs, kinds) if dd is d0 for x in kk
+                    if a.startswith("F=") and set(b.split(",")) - set(fields(a)["F"].split(",")) - {"-"}))
+    if bk and not any(fi for _, fi in ctx.violations):
+        more, mk = [], []
+        for _ in range(3000 if quick else 20000):
+            g = charts.Gen(rng, max_states=rng.choice([6, 9, 12]), p_fail=0.0, p_history=0.3, p_initial_elem=0.4, p_multi=0.3)
+            d = g.chart(); k = charts.invalidate(rng, d, 1, only=bk)
+            if k: more.append(d); mk.append(k)
+        Hm, _ = run_validate(ctx, more, model=False)
+        acc = [(d, k) for d, k, a in zip(more, mk, Hm) if a.startswith("F=") and fields(a)["F"] == "-"]
+        searched += len(more)
+        cs = [(d, h) for d, _ in acc for h in (["e", "f", "g"], ["g", "f", "e", "g"], ["f", "e", "e"])]
+        if cs:
+            T, _ = E.run_batches(ctx, [E.case_line("large", d, h) for d, h in cs], want_driver=False)
+            leg = c02.legality(ctx, cs, T)
+            for (d, h), t, lg in zip(cs, T, leg):
+                toks = t.split(" ")
+                pr = c02.problems(toks, lg)
+                if any(x.startswith(("CRASH", "EXC", "EXIT")) for x in toks): pr = "interpreter failed: " + [x for x in toks if x.startswith(("CRASH", "EXC", "EXIT"))][0]
+                if pr is not None and "hist-shared" not in c01.classify(d):
+                    ctx.violation("unsound-search", "validate-soundness", [E.case_line("large", d, h)],
+                                  detail="validation reports no fatal issue for a document corrupted by %s, and the interpreter then: %s\nchart: %s\nevents: %s" % (bk, pr, charts.sexpr(d)[:600], h))
+                    break
+    ctx.coverage["suites"]["validate-soundness"]["searched_after_disagreement"] = searched
     if broken and not ctx.violations:
         d, a, b = broken[0]
         ctx.violation("correspondence", "validate", [vline(d)], found_input=False,
